@@ -237,6 +237,9 @@ def job_integrate(T, Fc, asc, derived=None):
         for axis in ('t', 'f', 0, 1):
             for mode in ('mean', 'sum'):
                 out[(axis, mode)] = IG.integrate(fr, axis=axis, mode=mode)
+        # the object-returning form, for every spelling of the axis (names, integers, NumPy integers)
+        for axis in ('t', 'f', 0, 1, np.int64(0), np.int64(1)):
+            out[('frame', repr(axis))] = (axis, IG.integrate(fr, axis=axis, mode='mean', as_frame=True))
         out['spec'] = IG.spectrum(fr)
         out['spec_sum'] = IG.spectrum(fr, mode='sum')
         out['tser'] = IG.timeseries(fr)
@@ -278,6 +281,26 @@ def job_integrate(T, Fc, asc, derived=None):
             fmin_p = lift(fch1) if asc else lift(fch1) - (Fc + 1) * lift(df)
             dis += [lift(sp.fs[j]) != fmin_p + (1 + j) * lift(df) for j in range(Fc)]
         dis += [lift(sp.df) != lift(fr.df), lift(tsr.dt) != lift(fr.dt), lift(sp.dt) != lift(fr.dt) * T, lift(tsr.df) != lift(fr.df) * Fc]
+    for key, val in out.items():
+        if not (isinstance(key, tuple) and key[0] == 'frame'):
+            continue
+        axis, w = val
+        along_f = axis in ('f', 1)
+        if along_f:
+            if not isinstance(w, TS.TimeSeries) or w.data.shape != (T, 1) or len(w.ts) != T:
+                py.append(f'integrate(axis={axis!r}, as_frame=True) is a {type(w).__name__} of shape {getattr(w.data, "shape", None)}, expected a TimeSeries ({T}, 1)')
+                continue
+            vec(f'as_frame {axis!r}', list(w.data[:, 0]), [c / Fc for c in rowsum])
+            dis += [lift(a) != lift(b) for a, b in zip(w.ts, fr.ts)] + [lift(w.dt) != lift(fr.dt)]
+        else:
+            if not isinstance(w, SP.Spectrum) or w.data.shape != (1, Fc) or len(w.fs) != Fc:
+                py.append(f'integrate(axis={axis!r}, as_frame=True) is a {type(w).__name__} of shape {getattr(w.data, "shape", None)}, expected a Spectrum (1, {Fc})')
+                continue
+            vec(f'as_frame {axis!r}', list(w.data[0]), [c / T for c in colsum])
+            dis += [lift(a) != lift(b) for a, b in zip(w.fs, fr.fs)] + [lift(w.df) != lift(fr.df)]
+        d2, p2 = common_claims(w, (asc, fr.df, fr.dt, t0, 'SRC_C'))
+        dis += d2
+        py += p2
     for w in (sp, tsr):
         d2, p2 = common_claims(w, (asc, fr.df, fr.dt, t0, 'SRC_C'))
         dis += d2
@@ -469,6 +492,13 @@ def replay_integrate(p):
     for axis, ax in (('t', 0), ('f', 1), (0, 0), (1, 1)):
         if not np.allclose(stg.integrate(fr, axis=axis, mode='mean'), D.mean(axis=ax)) or not np.allclose(stg.integrate(fr, axis=axis, mode='sum'), D.sum(axis=ax)):
             bad.append(f'integrate axis={axis}')
+    for axis in ('t', 'f', 0, 1, np.int64(0), np.int64(1)):
+        w = stg.integrate(fr, axis=axis, mode='mean', as_frame=True)
+        if axis in ('f', 1):
+            if type(w).__name__ != 'TimeSeries' or w.data.shape != (fr.tchans, 1) or not np.allclose(w.ts, fr.ts) or not np.isclose(w.dt, fr.dt) or not np.allclose(w.data[:, 0], D.mean(axis=1)):
+                bad.append(f"integrate(axis={axis!r}, as_frame=True): {type(w).__name__} with dt={w.dt}, shape {w.data.shape}; expected a TimeSeries on the parent's time axis (dt={fr.dt})")
+        elif type(w).__name__ != 'Spectrum' or w.data.shape != (1, fr.fchans) or not np.allclose(w.fs, fr.fs) or not np.isclose(w.df, fr.df) or not np.allclose(w.data[0], D.mean(axis=0)):
+            bad.append(f"integrate(axis={axis!r}, as_frame=True): {type(w).__name__} with df={w.df}, shape {w.data.shape}; expected a Spectrum on the parent's frequency axis")
     sp, ts = stg.spectrum(fr), stg.timeseries(fr)
     if not np.allclose(sp.data[0], D.mean(axis=0)) or not np.allclose(sp.fs, fr.fs) or not np.allclose(ts.data[:, 0], D.mean(axis=1)) or not np.allclose(ts.ts, fr.ts):
         bad.append('spectrum/timeseries values or axes')
